@@ -50,6 +50,21 @@ def build_product(tier):
             for via in ("api", "cli"):
                 cases.append({"part": "product", "truth": truth, "kinds": [k for k in pj.KINDS if k in (truth, other)], "pre": ["agree"],
                               "method": False, "version": "v1", "via": via, "extra_same_kind": pre})
+    # one kind only, several files: the first is the truth, the others are targets of the same kind
+    for truth in pj.KINDS:
+        for pre in PRE:
+            for via in ("api", "cli"):
+                cases.append({"part": "product", "truth": truth, "kinds": [truth], "pre": [], "method": False, "version": "v1",
+                              "via": via, "extra_same_kind": pre})
+    # a target of another kind lives in the truth's own file
+    for truth in pj.KINDS:
+        for k in pj.KINDS:
+            if k == truth:
+                continue
+            for st in ("absent", "stale", "agree"):
+                for via in ("api", "cli"):
+                    cases.append({"part": "product", "truth": truth, "kinds": [x for x in pj.KINDS if x in (truth, k)], "pre": [st],
+                                  "method": False, "version": "v1", "via": via, "in_truth_file": True})
     # textual surroundings of the target: unterminated / indentation-only last line, the definition's name as a string
     # before it, a column-aligned module docstring
     for truth in pj.KINDS:
@@ -166,8 +181,16 @@ class C09(core.Check):
         P = pj.Project(self._root(), method_of=method_of)
         truth, kinds, version = case["truth"], case["kinds"], case["version"]
         targets = [k for k in kinds if k != truth]
-        P.write(truth, pj.render(truth, version, P.function_name if truth == "function" else None, method_of if truth == "function" else None))
+        truth_text = pj.render(truth, version, P.function_name if truth == "function" else None, method_of if truth == "function" else None)
+        P.write(truth, truth_text)
+        if case.get("in_truth_file"):
+            k, st = targets[0], case["pre"][0]
+            P.files[k] = P.files[truth]
+            if st != "absent":
+                P.write(truth, truth_text + "\n\n" + pj.render(k, "v2" if st == "stale" else version))
         for k, st in zip(targets, case["pre"]):
+            if case.get("in_truth_file"):
+                break
             name = P.function_name if k == "function" else None
             P.write(k, pj.prestate_text(k, st, version, name, method_of if k == "function" else None))
         extra_pre = case.get("extra_same_kind")
@@ -181,6 +204,8 @@ class C09(core.Check):
         exc, rep, out = P.sync(truth, kinds, case["via"])
         base = {"part": "product", "truth": pj.SHORT[truth], "kinds": "".join(pj.SHORT[k] for k in kinds), "method": case["method"],
                 "version": version, "via": case["via"]}
+        if case.get("in_truth_file"):
+            base["in_truth_file"] = True
         sites = []
         if exc is not None:
             sites.append(site(False, dict(base, field="call", pre=",".join(case["pre"])), fail="raise", **core.exc_obs(exc)))
